@@ -333,10 +333,21 @@ func domRfl(r *gen.Rng, n int, thorough bool, o *Out) {
 					}
 					rv.AsMap().Delete(k) // panics by design when the field is neither a pointer nor omitempty
 					after := vx.CanonValue(rv)
+					// exactly that entry changed: every other entry is as before (the entry itself is gone, or
+					// shows null / its zero value when the Go field cannot be omitted)
+					gotU, _ := rv.Unstructured().(map[string]interface{})
 					exp := gen.DeepCopy(want).(map[string]interface{})
 					delete(exp, k)
-					if after != vx.CanonValue(value.NewValueInterface(exp)) {
-						o.Fail("C18", "map/delete-changes-exactly-that-entry", "after "+after+" expected "+vx.CanonValue(value.NewValueInterface(exp)), "map/delete-changes-exactly-that-entry "+sig, "rfl:"+sig)
+					if gotU != nil {
+						rest := map[string]interface{}{}
+						for kk, vv := range gotU {
+							if kk != k {
+								rest[kk] = vv
+							}
+						}
+						if vx.CanonValue(value.NewValueInterface(rest)) != vx.CanonValue(value.NewValueInterface(exp)) {
+							o.Fail("C18", "map/delete-changes-exactly-that-entry", "after "+after, "map/delete-changes-exactly-that-entry "+sig, "rfl:"+sig)
+						}
 					}
 					// and the Go data agrees with what the generic view shows
 					got, _ := viaJSON(cp.Interface())
@@ -352,6 +363,37 @@ func domRfl(r *gen.Rng, n int, thorough bool, o *Out) {
 		if ptr.Type().Elem().Kind() == reflect.Struct && ptr.Type().Elem().NumField() >= 3 {
 			o.Nontrivial(sig)
 		}
+	}
+	// the generic map interface on every map representation: Set then Delete, against the model
+	for i := 0; i < n; i++ {
+		cr := r.Fork(uint64(7_000_000 + i))
+		m := map[string]interface{}{}
+		for k := 0; k < cr.Intn(4); k++ {
+			m[gen.Pick(cr, []string{"a", "b", "c", "d"})] = gen.SimpleScalar(cr)
+		}
+		k := gen.Pick(cr, []string{"a", "b", "c", "e", ""})
+		v := gen.SimpleScalar(cr)
+		d := gen.Pick(cr, []string{"a", "b", "c", "e", k})
+		op := "gmap.ops " + vx.Unstructured(m) + " " + vx.Str(k) + " " + vx.Unstructured(v) + " " + vx.Str(d)
+		o.Emit(op, func() string {
+			out := ""
+			for rep := 0; rep < gen.NumReps; rep++ {
+				mv := gen.Rep(gen.DeepCopy(m), rep)
+				mm := mv.AsMap()
+				mm.Set(k, value.NewValueInterface(v))
+				s1 := vx.Value(mv)
+				mm.Delete(d)
+				s2 := vx.Value(mv)
+				res := s1 + " " + s2 + " has=" + vx.Bool(mm.Has(d)) + " len=" + fmt.Sprint(mm.Length())
+				if rep == 0 {
+					out = res
+				} else if res != out {
+					o.Fail("C18", "map/set-delete-same-in-every-representation", fmt.Sprintf("representation %d: %s vs %s", rep, res, out),
+						"map/set-delete-same-in-every-representation "+op, op)
+				}
+			}
+			return out
+		})
 	}
 	// JSON / YAML round trips of generic values
 	for i := 0; i < n; i++ {
